@@ -45,6 +45,7 @@ type vc29Req struct {
 	TS    int    // index into vc29TSPool
 	Val   int    // index into vc29IntPool
 	Delay int
+	Burst bool // part of the opening burst: all clients issue it at the same moment (barrier)
 }
 
 func (r vc29Req) String() string {
@@ -56,7 +57,11 @@ func (r vc29Req) String() string {
 		return fmt.Sprintf("setT(t r%d %s ts=%q)", r.Row, col, vc29TSPool[r.TS])
 	case "clearT":
 		return fmt.Sprintf("clearT(t r%d %s)", r.Row, col)
-	case "row", "rowT", "clearRow", "count":
+	case "setG":
+		return fmt.Sprintf("setG(g r%d %s burst=%v)", r.Row, col, r.Burst)
+	case "setTNew":
+		return fmt.Sprintf("setTNew(t r%d %s ts=%d-01-01 burst=%v)", r.Row, col, 2030+r.TS, r.Burst)
+	case "row", "rowT", "rowG", "clearRow", "count":
 		return fmt.Sprintf("%s(r%d)", r.Kind, r.Row)
 	case "rowsWithCol":
 		return fmt.Sprintf("rowsWithCol(f %s)", col)
@@ -176,12 +181,14 @@ type vc29ApiRec struct {
 
 func vc29AbsCol(shard, col uint64) uint64 { return shard*ShardWidth + col }
 
+const vc29MaxShards = 8
+
 // vc29RowMasks splits the columns of a row result per shard.
-func vc29RowMasks(cols []uint64) ([2]uint8, error) {
-	var m [2]uint8
+func vc29RowMasks(cols []uint64) ([vc29MaxShards]uint8, error) {
+	var m [vc29MaxShards]uint8
 	for _, c := range cols {
 		sh, lc := c/ShardWidth, c%ShardWidth
-		if sh > 1 || lc > 1 {
+		if sh >= vc29MaxShards || lc > 1 {
 			return m, fmt.Errorf("column %d outside the universe", c)
 		}
 		m[sh] |= 1 << lc
@@ -209,7 +216,7 @@ func vc29Do(n *vgcNode, index string, r vc29Req) ([]vc29Sub, []vc29SubOut, error
 	one := func(s vc29Sub, o vc29SubOut) ([]vc29Sub, []vc29SubOut, error) {
 		return []vc29Sub{s}, []vc29SubOut{o}, nil
 	}
-	perShardRow := func(field byte, res interface{}, row uint64) ([]vc29Sub, []vc29SubOut, error) {
+	perShardRow := func(field byte, res interface{}, row uint64, nShards int) ([]vc29Sub, []vc29SubOut, error) {
 		rw, ok := res.(*Row)
 		if !ok {
 			return nil, nil, fmt.Errorf("result is %T, want *Row", res)
@@ -220,7 +227,13 @@ func vc29Do(n *vgcNode, index string, r vc29Req) ([]vc29Sub, []vc29SubOut, error
 		}
 		var subs []vc29Sub
 		var outs []vc29SubOut
-		for sh := 0; sh < 2; sh++ {
+		for sh := 0; sh < vc29MaxShards; sh++ {
+			if sh >= nShards {
+				if m[sh] != 0 {
+					return nil, nil, fmt.Errorf("row %d of field %c has columns in shard %d", row, field, sh)
+				}
+				continue
+			}
 			subs = append(subs, vc29Sub{Obj: fmt.Sprintf("%c%d", field, sh), Kind: "row", Row: row})
 			outs = append(outs, vc29SubOut{Mask: m[sh]})
 		}
@@ -260,13 +273,34 @@ func vc29Do(n *vgcNode, index string, r vc29Req) ([]vc29Sub, []vc29SubOut, error
 		if err != nil {
 			return nil, nil, err
 		}
-		return perShardRow('f', res, r.Row)
+		return perShardRow('f', res, r.Row, 2)
 	case "rowT":
 		res, err := q(fmt.Sprintf("Row(t=%d)", r.Row))
 		if err != nil {
 			return nil, nil, err
 		}
-		return perShardRow('t', res, r.Row)
+		return perShardRow('t', res, r.Row, 2)
+	case "setG":
+		// field g has no fragment until the clients create them
+		res, err := q(fmt.Sprintf("Set(%d, g=%d)", col, r.Row))
+		if err != nil {
+			return nil, nil, err
+		}
+		return one(vc29Sub{Obj: fmt.Sprintf("g%d", r.Shard), Kind: "setBit", Row: r.Row, Col: r.Col}, vc29SubOut{Changed: res.(bool)})
+	case "rowG":
+		res, err := q(fmt.Sprintf("Row(g=%d)", r.Row))
+		if err != nil {
+			return nil, nil, err
+		}
+		return perShardRow('g', res, r.Row, vc29MaxShards)
+	case "setTNew":
+		// a timestamp nobody used before: the time views and their fragments are created by this request
+		res, err := q(fmt.Sprintf("Set(%d, t=%d, %d-01-01T00:00)", col, r.Row, 2030+r.TS))
+		if err != nil {
+			return nil, nil, err
+		}
+		_ = res
+		return one(vc29Sub{Obj: objT, Kind: "setBit", Row: r.Row, Col: r.Col}, vc29SubOut{Unchecked: true})
 	case "rowsWithCol":
 		res, err := q(fmt.Sprintf("Rows(field=f, column=%d)", col))
 		if err != nil {
@@ -389,6 +423,7 @@ var vc29ReqKinds = []string{
 	"setT", "setT", "clearT", "rowT",
 	"setV", "setV", "valueV", "eqV",
 	"count", "topn", "sum", "recalc",
+	"setG", "rowG",
 }
 
 func vc29GenReq(t *rapid.T) vc29Req {
@@ -409,6 +444,8 @@ func vc29GenReq(t *rapid.T) vc29Req {
 		r.TS = rapid.IntRange(0, len(vc29TSPool)-1).Draw(t, "ts")
 	case "setV", "eqV":
 		r.Val = rapid.IntRange(0, len(vc29IntPool)-1).Draw(t, "val")
+	case "setG":
+		r.Shard = uint64(rapid.IntRange(0, vc29MaxShards-1).Draw(t, "gShard"))
 	}
 	r.Delay = rapid.SampledFrom([]int{0, 0, 0, 1, 2, 3, 4, 6}).Draw(t, "delay")
 	return r
@@ -434,6 +471,24 @@ func vc29FormatApiHistory(recs []vc29ApiRec, obj string) string {
 	return b.String()
 }
 
+// vc29Barrier is a reusable spin barrier: the opening burst makes all clients
+// issue their request for a shard that has no fragment yet at the same moment.
+type vc29Barrier struct {
+	n, count, gen int32
+}
+
+func (b *vc29Barrier) wait() {
+	g := atomic.LoadInt32(&b.gen)
+	if atomic.AddInt32(&b.count, 1) == b.n {
+		atomic.StoreInt32(&b.count, 0)
+		atomic.AddInt32(&b.gen, 1)
+		return
+	}
+	for atomic.LoadInt32(&b.gen) == g {
+		runtime.Gosched()
+	}
+}
+
 func TestVerifC29_API(t *testing.T) {
 	defer vkit.Flush()
 	work := vc29WorkDir()
@@ -454,9 +509,26 @@ func TestVerifC29_API(t *testing.T) {
 		plans := make([][]vc29Req, nClients)
 		var key strings.Builder
 		fmt.Fprintf(&key, "p%d m%d", procs, maxOpN)
+		// opening burst: every client sends its first write to the same shard of
+		// field g (no fragment yet) / to a time view of t that does not exist yet,
+		// step by step behind a barrier
+		nBurst := rapid.IntRange(2, 6).Draw(t, "burstSteps")
+		burst := make([]vc29Req, nBurst)
+		for i := range burst {
+			burst[i] = vc29Req{Kind: "setG", Shard: uint64(i), Burst: true}
+			if i >= 2 && rapid.IntRange(0, 2).Draw(t, "burstOnTime") == 0 {
+				burst[i] = vc29Req{Kind: "setTNew", Shard: uint64(rapid.IntRange(0, 1).Draw(t, "burstShard")), TS: i, Burst: true}
+			}
+		}
 		for c := range plans {
 			n := rapid.IntRange(10, 40).Draw(t, "nOps")
 			key.WriteString("|")
+			for _, b := range burst {
+				b.Row = uint64(rapid.IntRange(0, 1).Draw(t, "burstRow"))
+				b.Col = uint64(rapid.IntRange(0, 1).Draw(t, "burstCol"))
+				plans[c] = append(plans[c], b)
+				fmt.Fprintf(&key, "%s ", b.String())
+			}
 			for i := 0; i < n; i++ {
 				r := vc29GenReq(t)
 				plans[c] = append(plans[c], r)
@@ -475,7 +547,7 @@ func TestVerifC29_API(t *testing.T) {
 		for _, f := range []struct {
 			name string
 			opt  FieldOption
-		}{{"f", OptFieldTypeSet(CacheTypeRanked, 100)}, {"c", OptFieldTypeSet(CacheTypeRanked, 100)},
+		}{{"f", OptFieldTypeSet(CacheTypeRanked, 100)}, {"c", OptFieldTypeSet(CacheTypeRanked, 100)}, {"g", OptFieldTypeSet(CacheTypeRanked, 100)},
 			{"t", OptFieldTypeTime(TimeQuantum("YMD"))}, {"v", OptFieldTypeInt(-1000, 1000)}} {
 			if _, err := node.API.CreateField(ctx, index, f.name, f.opt); err != nil {
 				t.Fatalf("create field %s: %v", f.name, err)
@@ -513,6 +585,7 @@ func TestVerifC29_API(t *testing.T) {
 
 		runtime.GOMAXPROCS(procs)
 		var clock int64
+		barrier := &vc29Barrier{n: int32(nClients)}
 		recs := make([][]vc29ApiRec, nClients)
 		errs := make([]error, nClients)
 		var wg sync.WaitGroup
@@ -523,13 +596,19 @@ func TestVerifC29_API(t *testing.T) {
 				defer wg.Done()
 				<-start
 				for _, r := range plans[c] {
+					if r.Burst {
+						barrier.wait()
+					}
+					if errs[c] != nil {
+						continue // keep serving the barrier
+					}
 					vc29Delay(r.Delay)
 					call := atomic.AddInt64(&clock, 1)
 					subs, outs, err := vc29Do(node, index, r)
 					ret := atomic.AddInt64(&clock, 1)
 					if err != nil {
 						errs[c] = err
-						return
+						continue
 					}
 					recs[c] = append(recs[c], vc29ApiRec{Client: c, Req: r, Subs: subs, Outs: outs, Call: call, Return: ret})
 				}
@@ -547,7 +626,7 @@ func TestVerifC29_API(t *testing.T) {
 		}
 		for c, err := range errs {
 			if err != nil {
-				t.Fatalf("client %d: request failed: %v", c, err)
+				t.Fatalf("C29 violated: client %d: a valid request failed: %v (GOMAXPROCS=%d; requests marked burst are issued by all clients at the same moment)\nplan of the client: %v", c, err, procs, plans[c])
 			}
 		}
 		var all []vc29ApiRec
@@ -555,7 +634,7 @@ func TestVerifC29_API(t *testing.T) {
 			all = append(all, rs...)
 		}
 		// final reads after every client returned
-		for _, r := range []vc29Req{{Kind: "row", Row: 0}, {Kind: "row", Row: 1}, {Kind: "rowT", Row: 0}, {Kind: "rowT", Row: 1},
+		for _, r := range []vc29Req{{Kind: "row", Row: 0}, {Kind: "row", Row: 1}, {Kind: "rowT", Row: 0}, {Kind: "rowT", Row: 1}, {Kind: "rowG", Row: 0}, {Kind: "rowG", Row: 1},
 			{Kind: "valueV", Shard: 0, Col: 0}, {Kind: "valueV", Shard: 0, Col: 1}, {Kind: "valueV", Shard: 1, Col: 0}, {Kind: "valueV", Shard: 1, Col: 1}} {
 			call := atomic.AddInt64(&clock, 1)
 			subs, outs, err := vc29Do(node, index, r)
@@ -566,7 +645,11 @@ func TestVerifC29_API(t *testing.T) {
 			all = append(all, vc29ApiRec{Client: nClients, Req: r, Subs: subs, Outs: outs, Call: call, Return: ret})
 		}
 		overlap := false
-		for _, obj := range []string{"f0", "f1", "t0", "t1", "v0", "v1"} {
+		objs := []string{"f0", "f1", "t0", "t1", "v0", "v1"}
+		for sh := 0; sh < vc29MaxShards; sh++ {
+			objs = append(objs, fmt.Sprintf("g%d", sh))
+		}
+		for _, obj := range objs {
 			var ops []porcupine.Operation
 			type iv struct {
 				c, r   int64
